@@ -232,7 +232,8 @@ def run(tier):
             "mutation { ...F } fragment F on Mutation { m ...F }", "subscription { ...F } fragment F on Subscription { a ...F }",
             "{ ...F } fragment F on Query { a ...G } fragment G on Query { o { ...F } ...F }",
             "mutation { ...F @defer } fragment F on Mutation { ...G } fragment G on Mutation { m ...F @defer }",
-            "{ o { ...F } } fragment F on Query { o { ...F } }", "{ s(n: 1, x: \"\\ud800\") }", "fragment F on Query { a } { ...F ...F }"]
+            "{ o { ...F } } fragment F on Query { o { ...F } }", "{ u { __typename @stream } it { __typename @stream a @stream } }",
+            "{ u { __typename @defer } l @stream(initialCount: -1) }", "{ s(n: 1, x: \"\\ud800\") }", "fragment F on Query { a } { ...F ...F }"]
     for i in range(30 if quick else 400):
         g = gen_doc.Gen(rng, depth=2)
         docs.append(gen_doc.join_random(g.operation(), rng))
